@@ -327,6 +327,41 @@ def unit_counts(U):
                       and getattr(out1[0].attributes, "_d", 1) is not getattr(out2[0].attributes, "_d", 2) and len(ghostdb.executes(p.ctx)) == 2)
             U.prove("C11.fresh_objects[%s]#p%d" % (entry, p.index), "two iterations query the table twice and hand out distinct Feature objects (no Feature or attribute mapping shared between them)",
                     [], z3.BoolVal(bool(ok)), {}, replay=replay5)
+    # two iterations alive at the same time do not disturb each other: each runs on its own cursor (sqlite3: a cursor that
+    # executes a statement drops the rows still pending from its previous one)
+    for entry in ("all_features", "features_of_type"):
+        def run6(ctx, entry=entry):
+            cols = Q.FEATURE_COLS + ["file_order"]
+            rows_ = [ghostdb.GhostRow(cols, ["g%d" % i, "chr1", "src", "gene", 10 * i, 10 * i + 5, ".", "+", ".", '{"ID": ["g%d"]}' % i, "[]", 585, i]) for i in (1, 2)]
+            conn = ghostdb.GhostConn(result_for=lambda cur, kind, q, a: list(rows_))
+            db = blank_db(conn)
+            args = ["gene"] if entry == "features_of_type" else []
+            g1 = it.call(getattr(I.FeatureDB, entry), [db] + args, {})
+            first = next(g1)
+            inner = list(it.call(getattr(I.FeatureDB, entry), [db] + args, {}))
+            rest = list(g1)
+            return [first] + rest, inner, list(getattr(conn, "cursors_used", []))
+
+        def replay6(m, entry=entry):
+            import gffutils.feature as F
+            fs = []
+            for i in range(4):
+                f = F.Feature(seqid="c", featuretype="gene", strand="+", start=10 * i + 1, end=10 * i + 5, attributes={"ID": ["g%d" % i]})
+                f.id = "g%d" % i
+                fs.append(f)
+            db = native_db(fs)
+            q = (lambda: db.features_of_type("gene", strand="+")) if entry == "features_of_type" else (lambda: db.all_features(strand="+"))
+            pairs = [(a.id, b.id) for a in q() for b in q()]
+            exp = [("g%d" % i, "g%d" % j) for i in range(4) for j in range(4)]
+            z = [(a.id, b.id) for a, b in zip(q(), q())]
+            return {"inputs": "%s(strand='+') iterated inside itself (all pairs) and zipped with itself, 4 genes" % entry, "expected": [exp, [("g%d" % i, "g%d" % i) for i in range(4)]], "observed": [pairs, z],
+                    "violates": pairs != exp or z != [("g%d" % i, "g%d" % i) for i in range(4)]}
+        for p in U.explore(run6, it):
+            ok = p.kind == "return"
+            if ok:
+                outer, inner, curs = p.value
+                ok = len(outer) == 2 and len(inner) == 2 and len(curs) == 2 and curs[0] is not curs[1]
+            U.prove("C11.interleaved[%s]#p%d" % (entry, p.index), "an iteration started while another is under way runs on its own cursor; both return every row", [], z3.BoolVal(bool(ok)), {}, replay=replay6)
     for meth, col in (("featuretypes", "featuretype"), ("seqids", "seqid")):
         def run2(ctx, meth=meth):
             db = blank_db()
@@ -419,7 +454,13 @@ def unit_bounded(U):
                      "%d random calls on 7-feature databases" % n, cases, fails, distinct=len(distinct))
 
 
-UNITS = [("order", unit_order), ("where", unit_where), ("counts", unit_counts), ("bounded", unit_bounded)]
+def unit_schema(U):
+    """standing assumption of the SQL model, checked on the real SCHEMA: plain text/int columns, exact text comparison"""
+    from contracts import importer as IM_
+    IM_.prove_plain_schema(U, "C11", ['features'])
+
+
+UNITS = [("schema", unit_schema), ("order", unit_order), ("where", unit_where), ("counts", unit_counts), ("bounded", unit_bounded)]
 
 
 def replay_file(doc):
